@@ -131,6 +131,18 @@ def law_tensordot(ch):
             scalar_equal(res, want, sig + ":scalar", exact=True, what=mode)
             if n_aligned == 0:
                 require(res == 0, sig + ":zero", f"no aligned pair: {res!r}")
+    if ncon >= 2:
+        # the same pairs listed in another order (same operands, so the
+        # second call meets whatever the first left in the caches)
+        order = list(ch.perm(ncon, "relist"))
+        ax2 = (tuple(axes_a[i] for i in order), tuple(axes_b[i] for i in order))
+        for mode in ("fused", "blockwise"):
+            sig = f"tensordot[{mode}]:relisted"
+            res = must(sr.tensordot, a, b, ax2, what=sig, mode=mode,
+                       preserve_array=True)
+            ref = check_result_legs(res, a, b, free_a, free_b, sig)
+            dense_equal(D.dense_of(res, ref=ref), want, sig + ":value",
+                        exact=True, what=f"{mode} axes {ax2}")
     ch.label(f"symm={symm}")
     ch.label(f"ncon={ncon}")
     ch.label(f"form={form}")
